@@ -12,7 +12,10 @@ TITLE = ("assert_constraints accepts exactly the weights that meet the covered "
          "constraints")
 RULE = ("Hypothesis draws a layer kind (Lattice, PWLCalibration, Linear, "
         "CategoricalCalibration, KroneckerFactoredLattice, RTL with Lattice or "
-        "KFL sub-layers), a valid constraint configuration, 1-3 units, eps "
+        "KFL sub-layers), a valid constraint configuration (PWL also with "
+        "imputed missing values with/without missing_input_value, split "
+        "outputs, cyclic, learned_interior keypoints with initial or moved "
+        "logits), 1-3 units, eps "
         "(relative to the weight scale in {1e-6..1e-1} or absolute in {1e-6, "
         "1e-4, 1e-2}) and weights of one of four classes: feasible (certified "
         "projection / constructive / the layer's own constraints for KFL) with "
@@ -41,8 +44,8 @@ LEVEL_TEXT = ("Generated-input exploration of assert_constraints(eps) of six "
               "wrong direction, skip a unit/vertex/pair, use the wrong "
               "tolerance or crash; cannot show absence.")
 LEVEL_NOTE = ("Decision band: raise iff v >= 2 eps + n, return iff v <= eps/4 - "
-              "n, n = 16 ulp32(magnitude) (PWL: max(16, 2 K) ulp32, plus the "
-              "keypoint reconstruction error for learned_interior keypoints); "
+              "n, n = 16 ulp32(magnitude) (PWL: max(16, 2 K) ulp32 for the float32 "
+              "cumulative sum over K keypoints); "
               "exact (eps-free) KFL conditions are judged exactly outside one "
               "ulp of the bound. Unimodality, joint unimodality and PWL "
               "convexity are not covered by the library's assertions and are "
@@ -57,7 +60,7 @@ ASSUMPTIONS = [
 
 LAT_COVERED = ("mono", "ew", "tz", "mdom", "rdom", "jmono")
 LAYERS = ["lattice", "lattice", "lattice", "pwl", "pwl", "linear", "linear",
-          "categorical", "kfl", "kfl", "rtl"]
+          "categorical", "kfl", "kfl", "rtl", "rtl"]
 WMODES = ["feasible", "feasible", "raw", "inject", "inject", "inject"]
 EPS_REL = [1e-6, 1e-5, 1e-4, 1e-4, 1e-3, 1e-2, 1e-2, 1e-1]
 EPS_ABS = [1e-6, 1e-4, 1e-2]
@@ -122,10 +125,15 @@ def _case(draw, tier):
   elif layer == "pwl":
     cfg = draw(S.pwl_config(max_k=12 if big else 8))
     cfg["impute"] = draw(st.sampled_from(
-        ["none", "none", "learned", "learned", "constant", "tensor"]))
+        ["none", "none", "learned", "learned", "learned@keypoint", "constant",
+         "tensor"]))
     cfg["split"] = bool(cfg["units"] > 1 and draw(st.integers(0, 5)) == 0)
     cfg["kp_type"] = ("learned_interior" if cfg["conv"] == 0 and
-                      draw(st.integers(0, 4)) == 0 else "fixed")
+                      draw(st.integers(0, 2)) == 0 else "fixed")
+    # learned keypoints either still sit where they were initialised or have
+    # moved (interpolation_logits are weights of the layer as well).
+    cfg["logits"] = ("moved" if cfg["kp_type"] == "learned_interior" and
+                     draw(st.integers(0, 2)) > 0 else "initial")
     shape = (len(cfg["keypoints"]) - (1 if cfg["cyclic"] else 0),
              cfg["units"])
     case["missing"] = draw(S.array_desc(kinds=["normal", "ints", "uniform"],
@@ -190,6 +198,9 @@ def strategy(tier):
 
 
 # ---------------------------------------------------------------- judging
+TINY = 1e-36      # float32 denormal range: no claims down there
+
+
 def ulps(mag):
   """Vectorised ulp32."""
   return np.spacing(np.abs(np.asarray(mag, np.float64)).astype(
@@ -219,7 +230,7 @@ class Measure(object):
     if viol.size:
       self.items.append((kind, loc, np.minimum(viol, hi).reshape(-1),
                          np.maximum(viol, hi).reshape(-1),
-                         (mult * ulps(mag) + extra).reshape(-1)))
+                         (mult * ulps(mag) + extra + TINY).reshape(-1)))
 
   def add_exact(self, kind, loc, excess, slack=0.0):
     excess = np.asarray(excess, np.float64).reshape(-1)
@@ -378,8 +389,8 @@ def pick_target(kinds, pick):
   kinds that few configurations have are drawn three times as often."""
   present = []
   for k in sorted(set(kinds)):
-    present += [k] * (1 if k in COMMON_KINDS else 6 if k in ("ew", "tz") else
-                      3)
+    present += [k] * (1 if k in COMMON_KINDS else 6 if k in (
+        "ew", "tz", "mdom", "rdom") else 3)
   if not present:
     return None, None
   kind = present[spread("kind", pick["kind"]) % len(present)]
@@ -417,8 +428,10 @@ def inject_row(a, rhs, i, size, w64, kinds=None):
 # ---------------------------------------------------------------- eps
 def eps_of(case, scale):
   e = case["eps"]
+  # (all-zero weights have no scale: stay far above the float32 denormals,
+  # which TensorFlow kernels may flush to zero.)
   return float(e["value"]) if e["mode"] == "abs" else float(
-      e["value"]) * max(scale, 1e-30)
+      e["value"]) * max(scale, 1e-20)
 
 
 def inject_size(case, eps, noise):
@@ -547,7 +560,7 @@ def pwl_targets(cfg, rows):
       t += [("clamp_max", 0), ("clamp_max", 1)]
     else:
       t += [("bound_max", j) for j in range(rows)]
-  if cfg["impute"] in ("learned", "tensor"):
+  if cfg["impute"] in LEARNED_MISSING:
     if cfg["omin"] is not None:
       t.append(("missing_min", 0))
     if cfg["omax"] is not None:
@@ -621,13 +634,8 @@ def pwl_noise(cfg, k32, miss32):
   y = pwl_outputs(cfg, k64)
   mag = mag_of(k64, y, cfg["omin"], cfg["omax"], miss32)
   kp = np.asarray(cfg["keypoints"], np.float64)
-  n = max(16.0, 2.0 * kp.size) * ulp32(mag)
-  if cfg["kp_type"] == "learned_interior":
-    # keypoints are rebuilt from softmax logits in float32: the test inputs
-    # miss them by a few ulp of the keypoint range.
-    err = 16 * ulp32(mag_of(kp, kp[-1] - kp[0]))
-    n += 2.0 * err / float(np.min(np.diff(kp))) * mag_of(k64[1:], y[-1] - y[0])
-  return n
+  # a float32 cumulative sum over the K keypoints.
+  return max(16.0, 2.0 * kp.size) * ulp32(mag)
 
 
 def pwl_measure(meas, cfg, k32, miss32, noise):
@@ -649,7 +657,7 @@ def pwl_measure(meas, cfg, k32, miss32, noise):
       meas.add("clamp_max", "clamp_max", np.abs(mx - hi), zero, extra=noise)
     else:
       meas.add("bound_max", "bound_max", mx - hi, zero, extra=noise)
-  if cfg["impute"] in ("learned", "tensor"):
+  if cfg["impute"] in LEARNED_MISSING:
     mo = miss32.astype(np.float64)
     if lo is not None:
       meas.add("missing_min", "missing_min", lo - mo, zero, extra=noise)
@@ -657,8 +665,16 @@ def pwl_measure(meas, cfg, k32, miss32, noise):
       meas.add("missing_max", "missing_max", mo - hi, zero, extra=noise)
 
 
+LEARNED_MISSING = ("learned", "learned@keypoint", "tensor")
+
+
 def pwl_missing_input(cfg):
-  return float(cfg["keypoints"][0]) - 7.0
+  """missing_input_value: outside the keypoints, or (the keypoints are regular
+  inputs for assert_constraints) equal to the middle keypoint."""
+  kp = cfg["keypoints"]
+  if cfg["impute"] == "learned@keypoint":
+    return float(kp[len(kp) // 2])
+  return float(kp[0]) - 7.0
 
 
 def build_pwl(cfg):
@@ -1108,7 +1124,15 @@ def run_case(case):
                              pwl_noise(cfg, k32, miss), out)
     layer = build_pwl(cfg)
     layer.kernel.assign(k32)
-    if cfg["impute"] in ("learned", "tensor"):
+    moved = cfg["logits"] == "moved"
+    if moved:
+      kp = np.asarray(cfg["keypoints"], np.float64)
+      rs = np.random.RandomState(case["aux"])
+      logits = np.log(np.diff(kp) / (kp[-1] - kp[0]))[None, :] + rs.normal(
+          size=(units, kp.size - 1)) * rs.choice([0.3, 1.0, 2.0])
+      layer.interpolation_logits.assign(logits.astype(np.float32))
+      out.label("keypoints:moved")
+    if cfg["impute"] in LEARNED_MISSING:
       layer.missing_output.assign(miss)
       miss = layer.missing_output.numpy()
     k32 = layer.kernel.numpy()
@@ -1130,7 +1154,8 @@ def run_case(case):
           type(crash).__name__, str(crash)[:200]), kind="assert-crash",
                   layer="pwl", exc=type(crash).__name__, cause=cause)
       return out
-    judge(out, case, meas, eps, raised, msg, layer="pwl", units_gt1=units > 1)
+    judge(out, case, meas, eps, raised, msg, layer="pwl", units_gt1=units > 1,
+          moved_keypoints=moved)
     return out
 
   if layer_kind in ("linear", "categorical"):
